@@ -68,8 +68,20 @@ func c05Race(c *core.Ctx) {
 	old := runtime.GOMAXPROCS(procs)
 	defer runtime.GOMAXPROCS(old)
 	// no monitor state between spawn and join: plain Execute on raw arrays
+	// a third of the cases hold all four arrays in caller-owned C memory (what libopenwater's callers pass): the cell
+	// goroutines then share cdata views, whose methods are different code from the Go-backed ones
+	onC := c.Idx%3 == 1
+	if onC {
+		c.Tag("race:arrays-in-c-memory")
+	}
 	for rep := 0; rep < 3; rep++ {
-		if _, err := Execute(run); err != nil {
+		var err error
+		if onC {
+			_, _, err = ExecuteC(run, "malloc")
+		} else {
+			_, err = Execute(run)
+		}
+		if err != nil {
 			c.Violate("prepare", model, err.Error())
 			return
 		}
